@@ -59,6 +59,16 @@ type Sched struct {
 	inSched  bool
 	spins    int
 	progress int // steps since some task last made progress while others are blocked
+
+	// PCT strategy (Burckhardt et al., "A Randomized Scheduler with Probabilistic Guarantees of Finding
+	// Bugs"): every task has a priority, the runnable task with the highest priority runs, and at d-1
+	// change points (step numbers drawn before the run) the running task drops below all others. A
+	// task can so be held back across an arbitrarily long stretch of another task's work - the shape
+	// "reader pauses, installer completes, reader resumes" that a per-point coin rarely produces.
+	pct      bool
+	prio     [maxTasks]int
+	change   []int
+	lowPrio  int
 }
 
 var active *Sched
@@ -72,10 +82,61 @@ func New(fns []func(), decisions []uint32, switchPermille int) *Sched {
 	return s
 }
 
+// SetPCT switches the schedule to the PCT strategy with depth d (d-1 priority change points among the
+// first horizon scheduling points). Everything is derived from the decision array drawn for the run.
+func (s *Sched) SetPCT(d, horizon int) {
+	if d < 1 || len(s.Decisions) < 2*maxTasks || horizon < 1 {
+		return
+	}
+	s.pct = true
+	n := len(s.tasks)
+	// random permutation of priorities n..1 (Fisher-Yates over the decision array)
+	perm := make([]int, n)
+	for i := range perm {
+		perm[i] = i
+	}
+	for i := n - 1; i > 0; i-- {
+		j := int(s.Decisions[i] % uint32(i+1))
+		perm[i], perm[j] = perm[j], perm[i]
+	}
+	for rank, id := range perm {
+		s.prio[id] = n - rank + d // all initial priorities are above the d-1 low ones
+	}
+	for i := 0; i < d-1; i++ {
+		s.change = append(s.change, int(s.Decisions[maxTasks+i]%uint32(horizon)))
+	}
+	s.lowPrio = d - 1
+}
+
 // choose picks the next task at scheduling point step. cur = -1: the current task has ended.
 //
 //go:norace
 func (s *Sched) choose(step, cur int, cand []int) int {
+	if s.pct {
+		if cur >= 0 {
+			for _, c := range s.change {
+				if c == step {
+					s.prio[cur] = s.lowPrio
+					s.lowPrio--
+				}
+			}
+		}
+		// a task that is waiting for a lock ranks below every task that can make progress (its holder
+		// must get to run); it retries when nothing else can run or its lock was released
+		eff := func(c int) int {
+			if s.tasks[c].blocked != nil {
+				return s.prio[c] - 4*maxTasks
+			}
+			return s.prio[c]
+		}
+		best := cand[0]
+		for _, c := range cand {
+			if eff(c) > eff(best) {
+				best = c
+			}
+		}
+		return best
+	}
 	d := uint32(step*2654435761) >> 7
 	if len(s.Decisions) > 0 {
 		d = s.Decisions[step%len(s.Decisions)]
@@ -162,6 +223,13 @@ func (s *Sched) point(op string, addr unsafe.Pointer, blockedOn unsafe.Pointer) 
 		s.inSched = false
 		s.abort()
 		return
+	}
+	if addr != nil && blockedOn == nil && strings.HasSuffix(op, "unlock") {
+		for _, x := range s.tasks {
+			if x.blocked == addr {
+				x.blocked = nil // the lock it waits for has just been released
+			}
+		}
 	}
 	var runnable []int
 	allBlocked := true
